@@ -10,6 +10,7 @@ import SonicModel.Lemmas.DomParseProof
 import SonicModel.Lemmas.NumSkipProof
 import SonicModel.Lemmas.StrBlockProof
 import SonicModel.Lemmas.SpaceProof
+import SonicModel.Lemmas.DomSound
 namespace Sonic.Thm.C02
 open Sonic Gen
 
@@ -90,6 +91,22 @@ theorem decoding_parser_accepts_wellformed (buf : Buf) (s e : Nat) (h : Spec.doc
   obtain ⟨t, _, ht⟩ := DomP.document_of_strict buf s e h
   rw [ht]; rfl
 
+/-- **decoding path, soundness** (fourth session): whatever the model of the DOM parser accepts is a strictly well-formed
+    document — RFC 8259 grammar, every escape decodable, every number finite (`Lemmas/DomSound.lean`: the digit machine
+    consumes only number tokens, what it answers without the float back end is finite (`Lemmas/NumFinite.lean`), the string
+    decoder accepts only decodable literals, the loops of `parse_array` / `parse_object` accept only `,` `]` `}` between
+    values) -/
+theorem decoding_parser_accepts_only_wellformed (buf : Buf) (t : Spec.Json) (h : DomP.document buf = some t) :
+    ∃ s e, Spec.document true buf = some (s, e) :=
+  let ⟨s, e, hs, _⟩ := DomP.strict_of_document buf t h
+  ⟨s, e, hs⟩
+
+/-- **decoding path, as an equivalence**: the model of `from_slice::<Value>` (on valid UTF-8; whether a float request is
+    finite is the back end's answer, `Spec.finite`) accepts a byte string iff it is one strictly well-formed value surrounded
+    by nothing but whitespace -/
+theorem decoding_accept_iff (buf : Buf) : (DomP.document buf).isSome = true ↔ (Spec.document true buf).isSome = true :=
+  DomP.document_accept_iff buf
+
 /-- the bytewise scan of `Space` is the scalar `skip_space` every other model uses -/
 theorem bytewise_is_scalar_skip_space (buf : Buf) (i : Nat) :
     Impl.skipSpace buf i = (match Space.bytewise buf i with | (some c, j) => some (c, j) | (none, _) => none) := by
@@ -154,5 +171,11 @@ example : Spec.value false 20 ex1 0 = .ok 23 := by decide +kernel
 def ex2 : Buf := #[34, 92, 117, 90, 90, 90, 90, 34]
 example : (Impl.skipOne ex2.size 20 ex2 0).erase = .err := by decide +kernel
 example : Spec.value false 20 ex2 0 = .err := by decide +kernel
+/-- the decoding parser accepts `ex1` and rejects `[01]`, `[1.]`, `"\ud800"`, `[1 2]` -/
+example : (DomP.document ex1).isSome = true := by decide +kernel
+example : (DomP.document #[91, 48, 49, 93]).isSome = false := by decide +kernel
+example : (DomP.document #[91, 49, 46, 93]).isSome = false := by decide +kernel
+example : (DomP.document #[34, 92, 117, 100, 56, 48, 48, 34]).isSome = false := by decide +kernel
+example : (DomP.document #[91, 49, 32, 50, 93]).isSome = false := by decide +kernel
 
 end Sonic.Thm.C02
